@@ -31,5 +31,11 @@ extern MPT_INTERFACE(metatype) *_mpt_geninfo_clone(const void *info)
 		errno = EINVAL;
 		return 0;
 	}
+	/* unset value */
+	if (!vec.iov_len) {
+		return mpt_meta_geninfo(0);
+	}
+	/* used size includes the terminator (appended again for new value) */
+	--vec.iov_len;
 	return mpt_meta_new(&val);
 }
